@@ -34,8 +34,30 @@ pub fn table_names(conn: &Connection) -> rusqlite::Result<Vec<String>> {
     rows.collect()
 }
 
+/// `addresses.id` is assigned in the order in which gap-limit addresses happen to be generated
+/// across accounts (a HashMap iteration order), so two equivalent runs can number the same
+/// addresses differently. Under normalisation the rowid is replaced by the address's own identity
+/// (account, key scope, diversifier index) wherever it appears.
+fn address_identities(conn: &Connection) -> rusqlite::Result<BTreeMap<i64, String>> {
+    let mut m = BTreeMap::new();
+    let mut st = match conn.prepare("SELECT id, account_id, key_scope, hex(diversifier_index_be) FROM main.addresses") {
+        Ok(st) => st,
+        Err(_) => return Ok(m),
+    };
+    let mut rows = st.query([])?;
+    while let Some(r) = rows.next()? {
+        let id: i64 = r.get(0)?;
+        let acct: i64 = r.get(1)?;
+        let scope: i64 = r.get(2)?;
+        let di: String = r.get(3)?;
+        m.insert(id, format!("addr({acct},{scope},{di})"));
+    }
+    Ok(m)
+}
+
 pub fn dump(conn: &Connection, normalise_fresh: bool) -> rusqlite::Result<Dump> {
     let mut out = Dump::new();
+    let addr_ids = if normalise_fresh { address_identities(conn)? } else { BTreeMap::new() };
     for t in table_names(conn)? {
         let mut st = conn.prepare(&format!("SELECT * FROM main.\"{t}\""))?;
         let cols: Vec<String> = st.column_names().iter().map(|c| c.to_string()).collect();
@@ -47,6 +69,11 @@ pub fn dump(conn: &Connection, normalise_fresh: bool) -> rusqlite::Result<Dump> 
             for i in 0..n {
                 if normalise_fresh && FRESH_COLUMNS.iter().any(|(tt, c)| *tt == t && *c == cols[i]) {
                     r.push("<fresh>".to_string());
+                } else if normalise_fresh && ((t == "addresses" && cols[i] == "id") || cols[i] == "address_id") {
+                    match row.get_ref(i)? {
+                        ValueRef::Integer(id) => r.push(addr_ids.get(&id).cloned().unwrap_or_else(|| format!("addr?{id}"))),
+                        other => r.push(render(other)),
+                    }
                 } else {
                     r.push(render(row.get_ref(i)?));
                 }
